@@ -222,6 +222,11 @@ impl<A: G, B: G> G for (A, B) {
         (A::g(src, d), B::g(src, d))
     }
 }
+impl<A: G, B: G, C: G, D: G> G for (A, B, C, D) {
+    fn g(src: &mut Src, d: usize) -> Self {
+        (A::g(src, d + 1), B::g(src, d + 1), C::g(src, d + 1), D::g(src, d + 1))
+    }
+}
 impl<A: G, B: G, C: G> G for (A, B, C) {
     fn g(src: &mut Src, d: usize) -> Self {
         (A::g(src, d), B::g(src, d), C::g(src, d))
@@ -671,4 +676,6 @@ family! {
     68 => Disp : "Disp";
     69 => DispS : "DispS";
     70 => BTreeMap<String, NullNew> : "BTreeMap<String,NullNew>";
+    71 => (String, u128, String, i128) : "(String,u128,String,i128)";
+    72 => Vec<(String, u64)> : "Vec<(String,u64)>";
 }
